@@ -165,8 +165,20 @@ async fn run_async(scn: &Scn) {
                 midrun = true;
                 simrt::count_fault(Fault::Shutdown);
                 simrt::probe("c30_shutdown_midrun");
+                let t0 = simrt::now_ns();
                 ctl.shut_down().await;
+                let midrun_took = (simrt::now_ns() - t0) / 1_000_000;
                 simrt::tokio_net::set_runtime_dropped();
+                // with well-behaved clients only, every connection task finishes the message it is
+                // at (the client completes it within the message budget), answers it and leaves
+                let polite = scn.tcp.iter().all(|c| c.fault == 0 && c.read_pause_ms == 0 && c.cap >= 1 << 20);
+                let bound = shutdown_bound_ms(scn) + msg_budget_ms(scn) + 1_000;
+                if polite && scn.faults.is_empty() {
+                    simrt::probe("c30_midrun_shutdown_bound_checked");
+                    if midrun_took > bound {
+                        viol("shutdown-too-slow", format!("tokio provider: with well-behaved clients still sending, shut_down() completed {midrun_took} simulated ms after the request (bound {bound} ms: idle-shutdown bound + one message budget)"));
+                    }
+                }
                 clients.await;
             } else {
                 tokio::time::sleep(Duration::from_millis(2_500)).await;
@@ -260,8 +272,10 @@ async fn client_write<W: tokio::io::AsyncWrite + Unpin>(s: &mut W, c: &TcpClient
         if s.write_all(&plan.stream[off..off + n]).await.is_err() {
             return false;
         }
+        let before = off;
         off += n;
-        if plan.msg_ends.contains(&off) {
+        // a write that carries the last octet of a message starts the next message's clock
+        if plan.msg_ends.iter().any(|e| *e > before && *e <= off) {
             *msg_elapsed = 0;
         }
         let pause = c.pauses_ms[*seg_i % c.pauses_ms.len()];
